@@ -6,7 +6,10 @@ Lemmas: `FlexModel/Geo/RecvLemmas.lean`.  The shape of the guarding `try` statem
 classes are regenerated from the source into `Generated/Except.lean` on every run (`harness/gen_except.py`).
 -/
 import FlexModel.Geo.RecvLemmas
+import FlexModel.Geo.RouterSecLemmas
 import Generated.Except
+import Generated.RouterRx
+import Generated.Locks
 
 namespace Props.C04
 open FlexModel.Geo FlexModel.Geo.Recv Generated.Except
@@ -80,8 +83,8 @@ theorem gn_indicate_never_raises {σ α φ : Type} (broken : φ → Bool) (proc 
   indicate_never_raises mro gnIndicate broken (by decide) gn_indicate_catches_all proc st f
 
 /-- the station's complete receive path behind the raw loop: alive after every stream, under every fault sequence -/
-theorem station_loop_never_dies (D : Dec) (c : SCfg) (fs : List Rx) (st : St) :
-    (loopRun mro rawLoop Rx.stdoutBroken (stationIndicate mro gnIndicate D c) st fs).isSome = true :=
+theorem station_loop_never_dies (D : Dec) (c : SCfg) (fs : List Recv.Rx) (st : St) :
+    (loopRun mro rawLoop Recv.Rx.stdoutBroken (stationIndicate mro gnIndicate D c) st fs).isSome = true :=
   raw_loop_never_dies _ _ fs st
 
 /-- WITNESS (code before fixes/C04-report-cannot-stop-loop): a handler that reports with `print` dies with the first
@@ -107,44 +110,44 @@ without effect in the station model: -/
 /-- (a) frames the byte-level prologue rejects: short / truncated headers, reserved or unknown NH / HT / HST /
 station type, wrong version, RHL above MHL, zero-sized areas, unsecured frames under enabled security, secured frames
 without verify service -/
-theorem rejected_no_effect (D : Dec) (c : SCfg) (x : Rx) (h : rejected c.recv x.bytes) :
+theorem rejected_no_effect (D : Dec) (c : SCfg) (x : Recv.Rx) (h : rejected c.recv x.bytes) :
     NoEffect (stationRecv D c) x := prologue_rejected_no_effect D c x h
 
 /-- (b) secured envelopes that do not parse or name an algorithm the decoder does not know -/
-theorem unparsable_envelope_no_effect (D : Dec) (c : SCfg) (x : Rx)
+theorem unparsable_envelope_no_effect (D : Dec) (c : SCfg) (x : Recv.Rx)
     (hc : classify c.recv x.bytes = .secured) (hm : D.msg x.bytes = none) :
     NoEffect (stationRecv D c) x := (Recv.unparsable_envelope_no_effect D c x hc hm).1
 
 /-- as if never received, station model, raw loop, every fault sequence: a frame of class (a) or (b) at any position
 of any stream changes neither the final state (location table, duplicate lists, CBF buffer, certificate library, P2PCD
 lists) nor any action (delivery, transmission, timer) of the run -/
-theorem as_if_never_received (D : Dec) (c : SCfg) (pre suf : List Rx) (bad : Rx)
+theorem as_if_never_received (D : Dec) (c : SCfg) (pre suf : List Recv.Rx) (bad : Recv.Rx)
     (hbad : rejected c.recv bad.bytes ∨ (classify c.recv bad.bytes = .secured ∧ D.msg bad.bytes = none)) (st : St) :
-    loopRun mro rawLoop Rx.stdoutBroken (stationRecv D c) st (pre ++ bad :: suf)
-      = loopRun mro rawLoop Rx.stdoutBroken (stationRecv D c) st (pre ++ suf) := by
-  apply no_effect_as_if_never_received mro rawLoop Rx.stdoutBroken raw_loop_survives
+    loopRun mro rawLoop Recv.Rx.stdoutBroken (stationRecv D c) st (pre ++ bad :: suf)
+      = loopRun mro rawLoop Recv.Rx.stdoutBroken (stationRecv D c) st (pre ++ suf) := by
+  apply no_effect_as_if_never_received mro rawLoop Recv.Rx.stdoutBroken raw_loop_survives
   rcases hbad with h | ⟨h1, h2⟩
   · exact rejected_no_effect D c bad h
   · exact unparsable_envelope_no_effect D c bad h1 h2
 
 /-- the same for the complete chain as it runs: raw loop → `gn_data_indicate` (catch-all) → `process_basic_header` -/
-theorem as_if_never_received_station (D : Dec) (c : SCfg) (pre suf : List Rx) (bad : Rx)
+theorem as_if_never_received_station (D : Dec) (c : SCfg) (pre suf : List Recv.Rx) (bad : Recv.Rx)
     (hbad : rejected c.recv bad.bytes ∨ (classify c.recv bad.bytes = .secured ∧ D.msg bad.bytes = none)) (st : St) :
-    loopRun mro rawLoop Rx.stdoutBroken (stationIndicate mro gnIndicate D c) st (pre ++ bad :: suf)
-      = loopRun mro rawLoop Rx.stdoutBroken (stationIndicate mro gnIndicate D c) st (pre ++ suf) := by
-  apply no_effect_as_if_never_received mro rawLoop Rx.stdoutBroken raw_loop_survives
+    loopRun mro rawLoop Recv.Rx.stdoutBroken (stationIndicate mro gnIndicate D c) st (pre ++ bad :: suf)
+      = loopRun mro rawLoop Recv.Rx.stdoutBroken (stationIndicate mro gnIndicate D c) st (pre ++ suf) := by
+  apply no_effect_as_if_never_received mro rawLoop Recv.Rx.stdoutBroken raw_loop_survives
   have hne : NoEffect (stationRecv D c) bad := by
     rcases hbad with h | ⟨h1, h2⟩
     · exact rejected_no_effect D c bad h
     · exact unparsable_envelope_no_effect D c bad h1 h2
-  exact noEffect_indicate mro gnIndicate Rx.stdoutBroken (stationRecv D c) bad hne
+  exact noEffect_indicate mro gnIndicate Recv.Rx.stdoutBroken (stationRecv D c) bad hne
 
 /-- the same behind the C-V2X callback loop -/
-theorem as_if_never_received_cv2x (D : Dec) (c : SCfg) (pre suf : List Rx) (bad : Rx)
+theorem as_if_never_received_cv2x (D : Dec) (c : SCfg) (pre suf : List Recv.Rx) (bad : Recv.Rx)
     (hbad : rejected c.recv bad.bytes ∨ (classify c.recv bad.bytes = .secured ∧ D.msg bad.bytes = none)) (st : St) :
-    loopRun mro cv2xLoop Rx.stdoutBroken (stationRecv D c) st (pre ++ bad :: suf)
-      = loopRun mro cv2xLoop Rx.stdoutBroken (stationRecv D c) st (pre ++ suf) := by
-  apply no_effect_as_if_never_received mro cv2xLoop Rx.stdoutBroken cv2x_loop_survives
+    loopRun mro cv2xLoop Recv.Rx.stdoutBroken (stationRecv D c) st (pre ++ bad :: suf)
+      = loopRun mro cv2xLoop Recv.Rx.stdoutBroken (stationRecv D c) st (pre ++ suf) := by
+  apply no_effect_as_if_never_received mro cv2xLoop Recv.Rx.stdoutBroken cv2x_loop_survives
   rcases hbad with h | ⟨h1, h2⟩
   · exact rejected_no_effect D c bad h
   · exact unparsable_envelope_no_effect D c bad h1 h2
@@ -154,7 +157,7 @@ theorem as_if_never_received_cv2x (D : Dec) (c : SCfg) (pre suf : List Rx) (bad 
 /-- (c) a secured frame that fails verification (forged, flipped, unknown signer, unsupported signer type, verify
 service raising): router state untouched, no action at all; the security state moves to C03's `gate` result, whose
 certificate library only grows by chain-verified certificates -/
-theorem failed_verification_effect (D : Dec) (c : SCfg) (st : St) (x : Rx)
+theorem failed_verification_effect (D : Dec) (c : SCfg) (st : St) (x : Recv.Rx)
     (hc : classify c.recv x.bytes = .secured)
     (hf : ∀ pl, (FlexModel.Sec.gate c.sec c.recv.securityEnabled true st.sec (.secured (D.msg x.bytes))).2 ≠ .pass pl) :
     (stationRecv D c st x).1.r = st.r ∧ (stationRecv D c st x).2.1 = [] ∧
@@ -163,8 +166,8 @@ theorem failed_verification_effect (D : Dec) (c : SCfg) (st : St) (x : Rx)
    failed_verification_store_grows D c st x hc⟩
 
 /-- ... and later honest secured frames are verified, decapsulated and handled exactly as without the failed ones -/
-theorem honest_secured_frame_unaffected (D : Dec) (c : SCfg) (st st2 : St) (ys : List Rx)
-    (hrun : FailedRun D c st ys st2) (x : Rx) (hcx : classify c.recv x.bytes = .secured)
+theorem honest_secured_frame_unaffected (D : Dec) (c : SCfg) (st st2 : St) (ys : List Recv.Rx)
+    (hrun : FailedRun D c st ys st2) (x : Recv.Rx) (hcx : classify c.recv x.bytes = .secured)
     (m : FlexModel.Sec.Msg) (hmx : D.msg x.bytes = some m) (cert : FlexModel.Sec.Cert)
     (hr : FlexModel.Sec.Ready c.sec st.sec.store cert)
     (hm : FlexModel.Sec.HonestMsg m cert) (hsg : m.signer = .certs [cert])
@@ -177,7 +180,7 @@ theorem honest_secured_frame_unaffected (D : Dec) (c : SCfg) (st st2 : St) (ys :
 a well-formed GN packet, accepted and delivered by the router, whose payload the BTP / facility chain could not
 decode: then the router state is exactly what C06's `recvR` computes for that well-formed packet (source LocTE with
 PV, sequence number in the duplicate list, neighbour flag, CBF buffer; forwarding done) -/
-theorem raising_frame_effect_partial (D : Dec) (c : SCfg) (st : St) (x : Rx) (e : Exc)
+theorem raising_frame_effect_partial (D : Dec) (c : SCfg) (st : St) (x : Recv.Rx) (e : Exc)
     (hc : classify c.recv x.bytes ≠ .secured) (he : (stationRecv D c st x).2.2 = some e) :
     ((stationRecv D c st x).1 = st ∧ (stationRecv D c st x).2.1 = []) ∨
     ((∃ h, classify c.recv x.bytes = .handled h) ∧ D.upper (D.pkt x.bytes) = some e ∧
@@ -188,7 +191,7 @@ theorem raising_frame_effect_partial (D : Dec) (c : SCfg) (st : St) (x : Rx) (e 
 
 /-- full statement, variant that validates the payload before the GN layer commits (hypothetical repair of C04-KF1):
 a frame that raises has no effect whatsoever -/
-theorem raising_frame_no_effect (D : Dec) (c : SCfg) (hpf : c.payloadFirst = true) (st : St) (x : Rx) (e : Exc)
+theorem raising_frame_no_effect (D : Dec) (c : SCfg) (hpf : c.payloadFirst = true) (st : St) (x : Recv.Rx) (e : Exc)
     (hc : classify c.recv x.bytes ≠ .secured) (he : (stationRecv D c st x).2.2 = some e) :
     (stationRecv D c st x).1 = st ∧ (stationRecv D c st x).2.1 = [] :=
   Recv.raising_frame_no_effect D c hpf st x e hc he
@@ -201,7 +204,7 @@ SAME source (C04-KF1: `xb`'s sequence number sits in that source's duplicate lis
 at the neighbour set, which `xb`'s source has legitimately joined, and later LS replies that complete an own Location
 Service (`LsReplyToSelf`: they deliver nothing; their bookkeeping is C06's). -/
 theorem later_frames_of_other_sources_unaffected (D : Dec) (c : SCfg) (hv : c.r.loct.v = {})
-    (hns : c.recv.hasVerifyService = false) (st : St) (hu : Uniq st.r.t) (xb : Rx) (suf : List Rx)
+    (hns : c.recv.hasVerifyService = false) (st : St) (hu : Uniq st.r.t) (xb : Recv.Rx) (suf : List Recv.Rx)
     (hsrc : ∀ x ∈ suf, (D.pkt x.bytes).so ≠ (D.pkt xb.bytes).so)
     (hnl : ∀ x ∈ suf, ¬ LsReplyToSelf c.r (D.pkt x.bytes))
     (hst : ∀ x ∈ suf, Stable c.r.loct st.r.t xb.now x.now) :
@@ -211,7 +214,7 @@ theorem later_frames_of_other_sources_unaffected (D : Dec) (c : SCfg) (hv : c.r.
 
 /-- `Uniq` (unique keys of the location table), the standing assumption above, is an invariant of the receive path and
 holds of the empty table -/
-theorem uniq_invariant (D : Dec) (c : SCfg) (st : St) (x : Rx) (hu : Uniq st.r.t) :
+theorem uniq_invariant (D : Dec) (c : SCfg) (st : St) (x : Recv.Rx) (hu : Uniq st.r.t) :
     Uniq (stationRecv D c st x).1.r.t := stationRecv_uniq D c st x hu
 
 /-! ### C04-KF1 witness: a delivered frame whose payload the facility cannot decode consumes its sequence number -/
@@ -220,7 +223,7 @@ def wCfg (pf : Bool) : SCfg :=
   { r := { loct := { self := 1, lifetimeMs := 20000, dplLen := 8 } }, payloadFirst := pf }
 
 /-- GBC frame (circle, a = 5) with one payload octet -/
-def wFrame (payload : Nat) : Rx :=
+def wFrame (payload : Nat) : Recv.Rx :=
   { bytes := [0x11, 0, 5, 1] ++ [0x20, 0x40, 0, 0x80, 0, 0, 1, 0] ++ List.replicate 36 0 ++ [0, 5] ++ List.replicate 6 0
       ++ [payload],
     now := 1000, env := { inside := true } }
@@ -304,6 +307,159 @@ theorem mac_filter_old_agrees (own dst src : List Nat) (h : ¬ (src = own ∧ ds
     macAcceptOld own dst src = macAccept own dst src := by
   unfold macAcceptOld macAccept
   by_cases hs : src = own <;> by_cases hd : dst = own <;> simp_all
+
+/-! ## 7. Round 5: the loop can only be ended by the stop signal; a discarded frame leaves no receive context; the
+receive thread never waits for a lock it holds -/
+
+/-- REGENERATED FACT: every exit of the `while` of `PythonCV2XLinkLayer.callback_handler_loop` is guarded by an identity
+test of the dequeued item against `None` (seeded change C04-m8 turns it into a truth-value test: `.falsy`), and the `while`
+of `RawLinkLayer.receive` has no `break` / `return` outside the handler of the `try` around the socket read -/
+theorem loops_end_on_the_stop_signal_only : cv2xStopTest = .isNone ∧ rawFrameExits = 0 := by decide
+
+/-- with an identity test no GN packet - whatever its bytes, the EMPTY one included - ends the callback thread -/
+theorem frame_never_taken_for_stop_signal (gn : List Nat) : stopsOn .isNone (.frame gn) = false := rfl
+
+/-- the callback thread hands EVERY queued GN packet to the router, in order, for every queue content in front of the
+stop signal -/
+theorem queue_serves_every_frame (fs : List (List Nat)) (rest : List QItem) :
+    served .isNone (fs.map .frame ++ .stop :: rest) = fs := by
+  induction fs with
+  | nil => simp [served, stopsOn]
+  | cons f r ih => simp [served, stopsOn, ih]
+
+/-- modem -> queue -> callback thread, code as it is (`cv2xStopTest` is the generated constant): for EVERY sequence of radio
+frames (lengths 0, 1, ... included) every GN packet received is handed to the router -/
+theorem cv2x_every_received_packet_is_served (radio : List (List Nat)) :
+    served cv2xStopTest (radioToQueue radio ++ [.stop]) = radioPackets radio := by
+  have h : cv2xStopTest = .isNone := by decide
+  rw [h]
+  have : radioToQueue radio = (radioPackets radio).map .frame := by
+    unfold radioToQueue radioPackets
+    induction radio with
+    | nil => rfl
+    | cons r rs ih =>
+      cases r with
+      | nil => simpa [List.filterMap_cons] using ih
+      | cons _ gn => simp [ih]
+  rw [this]
+  exact queue_serves_every_frame _ []
+
+/-- WITNESS (truth-value test, seeded change C04-m8): a radio frame that holds the family id alone ends the thread; the
+valid packet behind it is lost.  With the identity test both valid packets are served and so is the empty one -/
+theorem falsy_stop_test_witness :
+    served .falsy (radioToQueue [[3, 17, 0], [3], [3, 17, 1]] ++ [.stop]) = [[17, 0]] ∧
+    served .isNone (radioToQueue [[3, 17, 0], [3], [3, 17, 1]] ++ [.stop]) = [[17, 0], [], [17, 1]] := by decide
+
+/-- REGENERATED FACT (`Generated/RouterRx.lean`, written by gen_router.py, regenerated for C04 too): the reset of the
+per-thread receive context sits in the `finally` of the `try` around the dispatch of a verified packet, the context is a
+`threading.local` written by `process_security_header` only (seeded change C04-m7 flattens the try/finally) -/
+theorem rx_context_reset_of_source :
+    Generated.RouterRx.ctxResetInFinally = true ∧ Generated.RouterRx.ctxThreadLocal = true ∧
+    Generated.RouterRx.ctxWriters = ["process_security_header"] := by decide
+
+/-- the wire-level station (C06's `RouterSec` model) as the code is: the `finally` flag is the generated constant -/
+def wireCfg (c : RCfg) (hasVerify secEnabled : Bool) : WCfg :=
+  { c := c, hasVerify := hasVerify, secEnabled := secEnabled, ctxFinally := Generated.RouterRx.ctxResetInFinally }
+
+/-- what a reception delivers, sends and does to the router state depends on the wire state only through the router
+state and the receive context of the receiving thread -/
+theorem recvW_congr (w : WCfg) (s s' : WSt) (x : FlexModel.Geo.Rx) (env : Env) (now : Nat) (hr : s.r = s'.r)
+    (hc : s.ctx x.thr = s'.ctx x.thr) :
+    (recvW w s x env now).2 = (recvW w s' x env now).2 ∧ (recvW w s x env now).1.r = (recvW w s' x env now).1.r := by
+  unfold recvW
+  cases hs : x.sec <;> simp only [hs, if_true, if_false, Bool.false_eq_true]
+  · split
+    · exact ⟨rfl, hr⟩
+    · simp [hr, hc]
+  · split
+    · exact ⟨rfl, hr⟩
+    · simp [hr]
+
+/-- a frame whose hop limit exceeds the maximum is discarded without touching the router state - secured or not,
+verified or not (for a verified one this is an exception raised AFTER verification, inside the dispatch) -/
+theorem hop_limit_discard_keeps_router_state (w : WCfg) (s : WSt) (x : FlexModel.Geo.Rx) (env : Env) (now : Nat)
+    (h : x.p.rhl > x.p.mhl) : (recvW w s x env now).1.r = s.r ∧ (recvW w s x env now).2.1 = [] := by
+  unfold recvW recvR
+  cases hs : x.sec <;> simp only [hs, if_true, if_false, Bool.false_eq_true, h] <;> split <;> simp
+
+/-- receptions only (no timer expiry in between): deliveries / sends of the decoded-packet model and PDUs on the wire -/
+def rxRun (w : WCfg) : WSt → List (FlexModel.Geo.Rx × Env × Nat) → List (List Act × List WFrame)
+  | _, [] => []
+  | s, y :: ys => ((recvW w s y.1 y.2.1 y.2.2).2.1, sentW w s y.1 y.2.1 y.2.2) :: rxRun w (recvW w s y.1 y.2.1 y.2.2).1 ys
+
+theorem rxRun_congr (w : WCfg) (hf : w.ctxFinally = true) : ∀ (ys : List (FlexModel.Geo.Rx × Env × Nat)) (s s' : WSt),
+    s.r = s'.r → CtxClear s → CtxClear s' → rxRun w s ys = rxRun w s' ys := by
+  intro ys
+  induction ys with
+  | nil => intros; rfl
+  | cons y r ih =>
+    intro s s' hr h h'
+    have hc : s.ctx y.1.thr = s'.ctx y.1.thr := by rw [h, h']
+    obtain ⟨h1, h2⟩ := recvW_congr w s s' y.1 y.2.1 y.2.2 hr hc
+    simp only [rxRun, sentW, h1]
+    rw [ih _ _ h2 (recvW_ctx_clear w hf s _ _ _ h) (recvW_ctx_clear w hf s' _ _ _ h')]
+
+/-- THE CLAUSE "every well-formed frame that arrives afterwards is processed exactly as if the bad frame had never been
+received" ON THE WIRE, for every station configuration (verify service or not, security enabled or not), every state, every
+discarded frame `x` (= the router state after it is the one before it: failed verification, no verify service, hop limit
+above the maximum after a SUCCESSFUL verification, duplicate address ...) and EVERY later sequence of receptions, on any
+threads: same deliveries, same forwarding decisions and the same GN-PDUs handed to the link layer.  Hypothesis on the code:
+the reset of the receive context sits in a `finally` (`rx_context_reset_of_source`). -/
+theorem later_frames_on_the_wire_unaffected_by_discarded_frame (w : WCfg) (hf : w.ctxFinally = true) (s : WSt)
+    (h : CtxClear s) (x : FlexModel.Geo.Rx) (env : Env) (now : Nat) (hdisc : (recvW w s x env now).1.r = s.r)
+    (ys : List (FlexModel.Geo.Rx × Env × Nat)) : rxRun w (recvW w s x env now).1 ys = rxRun w s ys :=
+  rxRun_congr w hf ys _ _ hdisc (recvW_ctx_clear w hf s x env now h) h
+
+/-- ... instantiated for the code as it is and the bad frame of the property text "hop limits above the maximum" -/
+theorem later_frames_unaffected_by_hop_limit_discard (c : RCfg) (hv en : Bool) (s : WSt) (h : CtxClear s) (x : FlexModel.Geo.Rx)
+    (env : Env) (now : Nat) (hx : x.p.rhl > x.p.mhl) (ys : List (FlexModel.Geo.Rx × Env × Nat)) :
+    rxRun (wireCfg c hv en) (recvW (wireCfg c hv en) s x env now).1 ys = rxRun (wireCfg c hv en) s ys :=
+  later_frames_on_the_wire_unaffected_by_discarded_frame _
+    (by show Generated.RouterRx.ctxResetInFinally = true; decide) s h x env now
+    (hop_limit_discard_keeps_router_state _ s x env now hx).1 ys
+
+/-- WITNESS (reset as straight-line code, seeded change C04-m7) and non-vacuity of the two theorems above: a secured SHB
+(message 77) that verifies and is discarded for RHL 5 > MHL 1, then an unsecured GBC (RHL 10) the station forwards: without
+the `finally` the station sends `Basic Header + message 77`; with it, the GBC with RHL 9 - the same as without the bad frame -/
+theorem stale_context_after_discard_witness :
+    let c : RCfg := { loct := { self := 1, lifetimeMs := 20000, dplLen := 8 } }
+    let x : FlexModel.Geo.Rx := { sec := true, m := 77, p := { kind := .tsb, rhl := 5, mhl := 1, so := 5, soPV := { time := 1000 }, sn := 1 } }
+    let g : Pkt := { kind := .gbc, rhl := 10, mhl := 10, so := 6, soPV := { time := 1000 }, sn := 2 }
+    let ys : List (FlexModel.Geo.Rx × Env × Nat) := [({ p := g }, { inside := true }, 1010)]
+    let bad : WCfg := { c := c, hasVerify := true, ctxFinally := false }
+    let good : WCfg := { c := c, hasVerify := true }
+    (rxRun bad (recvW bad {} x {} 1000).1 ys).map (·.2) = [[.secured 9 77]] ∧
+    (rxRun good (recvW good {} x {} 1000).1 ys).map (·.2) = [[.plain (fwd g)]] ∧
+    (rxRun good {} ys).map (·.2) = [[.plain (fwd g)]] := by
+  decide
+
+/-- REGENERATED FACT (`Generated/Locks.lean`, written by gen_locks.py, regenerated for C04 too): in the lock graph of the
+stack - an edge (a, b) for every call path on which `b` is taken while `a` is held, transitively through the resolved
+call graph; re-entries of RLocks are listed apart - NO lock is taken while it is already held: no thread, in particular not
+the receive thread inside a handler, waits for itself.  (Seeded change C04-m9 flushes the LS buffer under `_ls_lock`:
+`gn_data_request_guc` -> `gn_ls_request` re-takes it: edge (`_ls_lock`, `_ls_lock`).)  Cycles through several locks are
+C15's `lock_order` theorem. -/
+theorem no_lock_retaken_while_held : Generated.Locks.edges.all (fun e => e.1 != e.2) = true := by decide
+
+/-- the same for the one section the receive path holds while it works on the Location Service state: nothing called under
+`_ls_lock` by the LS-reply handler sends or requests -/
+theorem ls_reply_section_calls_no_request :
+    ((Generated.Locks.calls .Router_gn_data_indicate_ls_reply).all fun c =>
+      !(c.1.contains .Router__ls_lock) || (c.2 != .Router_gn_data_request_guc && c.2 != .Router_gn_ls_request)) = true := by
+  decide
+
+/-- a thread that asks for a lock it holds: `none` = blocks for ever unless the lock is re-entrant -/
+def acquire (reentrant held : List Generated.Locks.Lk) (l : Generated.Locks.Lk) : Option (List Generated.Locks.Lk) :=
+  if held.contains l && !reentrant.contains l then none else some (l :: held)
+
+/-- the only way `acquire` blocks the (single) receive thread by itself is an edge (l, l) on a non-re-entrant lock -/
+theorem acquire_blocks_iff (re held : List Generated.Locks.Lk) (l : Generated.Locks.Lk) :
+    acquire re held l = none ↔ (l ∈ held ∧ l ∉ re) := by
+  unfold acquire
+  by_cases h1 : held.contains l = true <;> by_cases h2 : re.contains l = true <;> simp_all
+
+/-- WITNESS: `_ls_lock` is not re-entrant, so the shape of C04-m9 blocks -/
+example : acquire Generated.Locks.reentrant [.Router__ls_lock] .Router__ls_lock = none := by decide
 
 /-! ## Non-vacuity -/
 example : classify {} [0x11, 0, 5, 1] = .raised .decodeError := by decide
